@@ -16,7 +16,11 @@ thread_local! {
 }
 
 /// behaviours (kind % 5): 0 accept, 1 reject, 2 accept iff string, 3 accept iff even integer, 4 accept iff null (claim absent);
-/// kind / 5 selects the error variant a rejecting validator returns (validators in the wild use any of them)
+/// kind / 5 selects HOW a validator that does not accept refuses: one of six error variants, or (6, 7) by panicking -
+/// with a message / with a typed value (an application bug; the caller contains the unwind)
+fn refuses_by_panicking(kind: u8) -> bool {
+  (kind / 5) % 8 >= 6
+}
 fn behaves(kind: u8, v: &Value) -> bool {
   match kind % 5 {
     0 => true,
@@ -33,7 +37,13 @@ fn vcall(id: u8, key: &str, v: &Value) -> Result<(), PasetoClaimError> {
   if behaves(kind, v) {
     Ok(())
   } else {
-    Err(match (kind / 5) % 6 {
+    if (kind / 5) % 8 == 6 {
+      panic!("harness validator {id}: refusing by panicking");
+    }
+    if (kind / 5) % 8 == 7 {
+      std::panic::panic_any(Refusal(400 + id as u16));
+    }
+    Err(match (kind / 5) % 8 {
       0 => PasetoClaimError::CustomValidation(key.to_string()),
       1 => PasetoClaimError::Unexpected(key.to_string()),
       2 => PasetoClaimError::Invalid(key.to_string(), "something else".to_string(), v.to_string()),
@@ -284,6 +294,12 @@ impl Sub for Validators {
         cl.tag("registered-via-extend_validation_claims");
       } else if parser.validate(spec, VALIDATORS[*id]).is_err() {
         return Verdict::Discard;
+      } else if c.via_extend && id % 3 == 2 && c.layer == Layer::Generic {
+        // ... and the same key is then listed once more in a bulk registration of expected claims, followed by the validator
+        // again: one key, one validator, whatever the order and number of registrations
+        let _ = parser.extend_checks(&[(k.clone(), Value::Null)]);
+        let _ = parser.extend_validators(&[(k.clone(), VALIDATORS[*id])]);
+        cl.tag("key-registered-again-through-extend_check_claims");
       }
     }
     for spec in &check_specs {
@@ -319,7 +335,12 @@ impl Sub for Validators {
       let vals = active.clone();
       LOG.with(|l| l.borrow_mut().clear());
       // per-parse overrides for the wrong-footer / wrong-assertion / wrong-key variants need their own parser
-      let r = match corruption {
+      // the parse is contained: a validator of this case may refuse by panicking (its unwind comes back here); a panic that
+      // started in the library is a violation like anywhere else
+      if **corruption == Corruption::WrongAssertion && !p.has_assertion() {
+        continue;
+      }
+      let contained = crate::engine::catch(|| match corruption {
         Corruption::WrongKey => parser.parse(t, &lk2),
         Corruption::WrongFooter | Corruption::WrongAssertion => {
           let mut p2 = new_parser(p, c.layer);
@@ -329,9 +350,6 @@ impl Sub for Validators {
               p2.assertion(a);
             }
           } else {
-            if !p.has_assertion() {
-              continue;
-            }
             if let Some(f) = c.footer.as_deref() {
               p2.footer(f);
             }
@@ -343,8 +361,22 @@ impl Sub for Validators {
           p2.parse(t, &lk)
         }
         _ => parser.parse(t, &lk),
-      };
+      });
       let log: Vec<(u8, String, Value)> = LOG.with(|l| l.borrow().clone());
+      let r = match contained {
+        Ok(r) => r,
+        Err((loc, msg)) if loc.starts_with("harness:") => {
+          // an application validator panicked: allowed only if one of those in force refuses this payload by panicking
+          let expected = **corruption == Corruption::None && vals.iter().any(|(_, k, kind)| refuses_by_panicking(*kind) && !behaves(*kind, &payload.get(k).cloned().unwrap_or(Value::Null)));
+          if !expected {
+            vio!("C16:validator-ran-on-unauthenticated-token:{}", c.layer.label(); "token #{} ({:?}): a validator was called (and panicked: {}) although no panicking validator should have run - log {:?}", i + 1, corruption, msg, log);
+          }
+          cl.tag("authentic:validator-panicked");
+          interesting = true;
+          continue;
+        }
+        Err((loc, msg)) => vio!("C16:panic:{}", loc; "parse #{} panicked inside the library at {}: {}", i + 1, loc, msg),
+      };
       cl.tag(format!("token:{}", match corruption { Corruption::None => "authentic", Corruption::FlipBit(_) => "bit-flipped", Corruption::WrongKey => "wrong-key", Corruption::WrongFooter => "wrong-footer", Corruption::WrongAssertion => "wrong-assertion", Corruption::WrongHeader => "wrong-header", Corruption::Truncate(_) => "truncated" }));
       if **corruption != Corruption::None {
         interesting = true;
@@ -456,7 +488,7 @@ fn case(proto: Proto, layer: Layer) -> BoxedStrategy<ValCase> {
     }
     out
   });
-  let behaviour = prop_oneof![3 => 0u8..5, 2 => 5u8..30];
+  let behaviour = prop_oneof![3 => 0u8..5, 2 => 5u8..30, 1 => 30u8..40];
   (gen::bytes32(), vec((0u8..15, behaviour), 0..5), toks, prop_oneof![Just(None), gen::jsonish(6).prop_map(Some)], prop_oneof![Just(None), gen::jsonish(6).prop_map(Some)], any::<bool>(), prop_oneof![3 => Just(None), 1 => (0u8..4).prop_map(Some)], prop_oneof![3 => Just(vec![]), 1 => vec((0u8..15, 0u8..4), 1..3)])
     .prop_map(move |(seed, validators, tokens, footer, assertion, via_extend, late_from, checks)| ValCase { proto, layer, seed, validators, tokens, footer, assertion, via_extend, late_from, checks })
     .boxed()
